@@ -142,6 +142,47 @@ pub fn run(ctx: &Ctx) -> Report {
             }
         }
     }
+    // full-frame calls with a buffer of another length than the frame (where the driver accepts it): the
+    // geometry the call programs must still describe the panel, whatever it does with the bytes
+    for spec in panels_for(ctx) {
+        for e in spec.full {
+            let full = spec.entry_buf_len(e);
+            let row = ((spec.w + 7) / 8) as usize;
+            if e.plane2.is_some() && e.buf != BufSel::Whole {
+                continue;
+            }
+            for len in [full / 2, 3 * full / 5, full.saturating_sub(row), full + row, row] {
+                if len == 0 || len == full {
+                    continue;
+                }
+                rep.eval(spec.name);
+                let mut rig = Rig::simple(spec);
+                let mut ops: Vec<Op> = Vec::new();
+                if let Some(k) = e.after {
+                    ops.push(frame_op(spec, k, 77));
+                }
+                if ops.iter().any(|o| !rig.apply(o).is_ok()) {
+                    continue;
+                }
+                let op = Op::img(e.k, Img::Coded { salt: 0xC18 + len as u32, len });
+                let c0 = rig.board.borrow().chip().cmds.len();
+                let out = rig.apply(&op);
+                if !out.is_ok() {
+                    rep.count("other_lengths_rejected_by_driver", 1);
+                    continue;
+                }
+                ops.push(op);
+                let b = rig.board.borrow();
+                let cmds = &b.chip().cmds[c0..];
+                rep.count("commands_decoded", cmds.len() as u64);
+                rep.nontrivial(hash_str(&format!("{}|len|{}|{}", spec.name, e.k.name(), len)));
+                for (class, mut tags, detail) in check_cmds(spec, cmds, Some(e.k)) {
+                    tags.push("other-length".into());
+                    rep.fail(Failure { panel: spec.name.into(), entry: e.k.name().into(), class, tags, detail: format!("{} (buffer of {} bytes, the frame is {})", detail, len, full), case: case_json(spec, &ctx.variant, &ops).set("buffer_len", len) });
+                }
+            }
+        }
+    }
     if ctx.variant == "v3" && ctx.only_panel.as_deref().map(|p| p == "epd12in48b_v2").unwrap_or(true) {
         crate::props::p12checks::c18(&mut rep);
     }
